@@ -9,11 +9,12 @@ Section Proofs.
   Variable name : N -> N.
   Variable fnv : N -> V.
   Variable size : V -> nat.
+  Variable pol : V -> nat -> bool.
 
-  Notation step1' := (step1 V name fnv size).
-  Notation sys_step' := (sys_step V name fnv size).
-  Notation exec' := (exec V name fnv size).
-  Notation exec_b' := (exec_b V name fnv size).
+  Notation step1' := (step1 V name fnv size pol).
+  Notation sys_step' := (sys_step V name fnv size pol).
+  Notation exec' := (exec V name fnv size pol).
+  Notation exec_b' := (exec_b V name fnv size pol).
   Notation wfuel' := (wfuel V fnv size).
   Notation block' := (block V fnv size).
   Notation Good' := (Good V name fnv size).
@@ -152,15 +153,21 @@ Section Proofs.
     intros Hs q HF HT.
     assert (Htg : q <> target pr p (name k)).
     { unfold target. destruct (is_temp pr); assumption. }
-    destruct c as [| | |v|v j|v|r]; simpl in Hs.
+    destruct c as [| | |v|v j d|v|v d|r]; simpl in Hs.
     - inversion Hs; subst. reflexivity.
     - inversion Hs; subst. reflexivity.
     - inversion Hs; subst. reflexivity.
     - inversion Hs; subst. apply upd_other. exact Htg.
-    - destruct (Nat.ltb j (size v)); inversion Hs; subst.
-      + apply upd_other. exact Htg.
-      + reflexivity.
+    - destruct (Nat.ltb j (size v)).
+      + destruct (pol v (S j)); inversion Hs; subst.
+        * apply upd_other. exact Htg.
+        * reflexivity.
+      + destruct pr; unfold target, is_temp in Hs, Htg.
+        1,2,4: destruct (Nat.ltb d (size v)); inversion Hs; subst;
+          [apply upd_other; exact Htg | reflexivity].
+        inversion Hs; subst. rewrite upd_other by exact HT. apply upd_other. exact HF.
     - inversion Hs; subst. rewrite upd_other by exact HT. apply upd_other. exact HF.
+    - destruct (Nat.ltb d (size v)); inversion Hs; subst; [apply upd_other; exact HF | reflexivity].
     - inversion Hs; subst. reflexivity.
   Qed.
 
@@ -171,8 +178,9 @@ Section Proofs.
     | PStart | PRun => True
     | PLoad => f (Final (name k)) <> None
     | POpen v => v = fnv x
-    | PWrite v j => v = fnv x /\ f (Tmp p (name k)) = Some (v, j) /\ j <= size v
+    | PWrite v j d => v = fnv x /\ f (Tmp p (name k)) = Some (v, d) /\ d <= j /\ j <= size v
     | PReplace v => v = fnv x /\ f (Tmp p (name k)) = Some (v, size v)
+    | PCloseR _ _ => False   (* not a state of the temp+replace protocol *)
     | PDone r => r = Ok (fnv x) /\ f (Final (name k)) = whole' x
     end.
 
@@ -181,7 +189,7 @@ Section Proofs.
   Proof.
     intros [Hg Hc] Hs.
     assert (HFT : Final (name k) <> Tmp p (name k)) by discriminate.
-    destruct c as [| | |v|v j|v|r]; simpl in Hs; unfold target, is_temp in Hs.
+    destruct c as [| | |v|v j d|v|v d|r]; simpl in Hs; unfold target, is_temp in Hs.
     - inversion Hs; subst; clear Hs. unfold wk_ok. split; [exact Hg|].
       destruct (f' (Final (name k))) eqn:E; [discriminate | exact I].
     - inversion Hs; subst; clear Hs. unfold wk_ok. split; [exact Hg|].
@@ -191,15 +199,23 @@ Section Proofs.
     - inversion Hs; subst; clear Hs. unfold wk_ok.
       rewrite upd_other by exact HFT. rewrite upd_same.
       split; [exact Hg|]. split; [reflexivity|]. split; [reflexivity | lia].
-    - destruct Hc as [Hv [Ht Hj]].
-      destruct (Nat.ltb j (size v)) eqn:E; inversion Hs; subst; clear Hs; unfold wk_ok.
-      + apply Nat.ltb_lt in E. rewrite upd_other by exact HFT. rewrite upd_same.
-        split; [exact Hg|]. split; [reflexivity|]. split; [reflexivity | lia].
-      + apply Nat.ltb_ge in E. split; [exact Hg|]. split; [reflexivity|].
-        rewrite Ht. f_equal. f_equal. lia.
+    - destruct Hc as [Hv [Ht [Hd Hj]]].
+      destruct (Nat.ltb j (size v)) eqn:E.
+      + apply Nat.ltb_lt in E.
+        destruct (pol v (S j)); inversion Hs; subst; clear Hs; unfold wk_ok.
+        * rewrite upd_other by exact HFT. rewrite upd_same.
+          split; [exact Hg|]. split; [reflexivity|]. split; [reflexivity | lia].
+        * split; [exact Hg|]. split; [reflexivity|]. split; [exact Ht | lia].
+      + apply Nat.ltb_ge in E.
+        destruct (Nat.ltb d (size v)) eqn:E2; inversion Hs; subst; clear Hs; unfold wk_ok.
+        * rewrite upd_other by exact HFT. rewrite upd_same.
+          split; [exact Hg|]. split; reflexivity.
+        * apply Nat.ltb_ge in E2. split; [exact Hg|]. split; [reflexivity|].
+          rewrite Ht. f_equal. f_equal. lia.
     - destruct Hc as [Hv Ht]. inversion Hs; subst; clear Hs. unfold wk_ok.
       rewrite upd_other by exact HFT. rewrite upd_same. rewrite Ht.
       split; [right; reflexivity|]. split; reflexivity.
+    - destruct Hc.
     - inversion Hs; subst; clear Hs. unfold wk_ok. split; assumption.
   Qed.
 
@@ -297,7 +313,7 @@ Section Proofs.
     forall pr, pr = SaveTempReplace ->
     forall items f0 p sched,
       names_distinct name items -> Good V name fnv size items f0 ->
-      Good V name fnv size items (s_fs (exec V name fnv size pr p items sched (init items f0))).
+      Good V name fnv size items (s_fs (exec V name fnv size pol pr p items sched (init items f0))).
   Proof.
     intros pr -> items f0 p sched Hnd Hg.
     pose proof (Inv_exec p items sched Hnd _ (Inv_init p items f0 Hg)) as [Hlen Hw].
@@ -313,7 +329,7 @@ Section Proofs.
     forall pr, pr = SaveTempReplace ->
     forall items f0 p sched,
       names_distinct name items -> Good V name fnv size items f0 ->
-      let st := exec V name fnv size pr p items sched (init items f0) in
+      let st := exec V name fnv size pol pr p items sched (init items f0) in
       all_done st = true ->
       collect items (s_pcs st) = Some (run_uncached V fnv items)
       /\ AllCached V name fnv size items (s_fs st).
@@ -342,8 +358,9 @@ Section Proofs.
     | PLoad => 1
     | PRun => size (fnv x) + 4
     | POpen v => size v + 3
-    | PWrite v j => (size v - j) + 2
+    | PWrite v j _ => (size v - j) + 2
     | PReplace _ => 1
+    | PCloseR _ _ => 1
     | PDone _ => 0
     end.
 
@@ -353,15 +370,16 @@ Section Proofs.
   Lemma step1_rem pr p k x f c f' c' cl ef :
     step1' pr p k x f c = (f', c', cl, ef) -> remt x c' <= remt x c - 1.
   Proof.
-    intros Hs. destruct c as [| | |v|v j|v|r]; simpl in Hs.
+    intros Hs. destruct c as [| | |v|v j d|v|v d|r]; simpl in Hs.
     - inversion Hs; subst. destruct (f' (Final (name k))); simpl; lia.
     - inversion Hs; subst.
       destruct (f' (Final (name k))) as [[v j]|]; [destruct (Nat.eqb j (size v))|]; simpl; lia.
     - inversion Hs; subst; simpl; lia.
     - inversion Hs; subst; simpl; lia.
-    - destruct (Nat.ltb j (size v)) eqn:E; inversion Hs; subst; simpl.
-      + apply Nat.ltb_lt in E. lia.
-      + destruct (is_temp pr); simpl; lia.
+    - destruct (Nat.ltb j (size v)) eqn:E.
+      + apply Nat.ltb_lt in E. destruct (pol v (S j)); inversion Hs; subst; simpl; lia.
+      + destruct pr; inversion Hs; subst; simpl; lia.
+    - inversion Hs; subst; simpl; lia.
     - inversion Hs; subst; simpl; lia.
     - inversion Hs; subst; simpl; lia.
   Qed.
@@ -404,7 +422,7 @@ Section Proofs.
     forall pr items f0 p sched i k x,
       nth_error items i = Some (k, x) ->
       wfuel V fnv size x <= count_occ Nat.eq_dec sched i ->
-      exists r, nth_error (s_pcs (exec V name fnv size pr p items sched (init items f0))) i = Some (PDone r).
+      exists r, nth_error (s_pcs (exec V name fnv size pol pr p items sched (init items f0))) i = Some (PDone r).
   Proof.
     intros pr items f0 p sched i k x Hi Hf.
     destruct (exec_rem pr p items sched (init items f0) i k x PStart Hi) as [c' [Hc' Hr]].
@@ -417,7 +435,7 @@ Section Proofs.
   Lemma fair_schedule_completes :
     forall pr items f0 p sched,
       (forall i k x, nth_error items i = Some (k, x) -> wfuel V fnv size x <= count_occ Nat.eq_dec sched i) ->
-      all_done (exec V name fnv size pr p items sched (init items f0)) = true.
+      all_done (exec V name fnv size pol pr p items sched (init items f0)) = true.
   Proof.
     intros pr items f0 p sched H. unfold all_done. apply forallb_forall. intros c Hin.
     apply In_nth_error in Hin. destruct Hin as [i Hc].
@@ -432,7 +450,7 @@ Section Proofs.
   (** * 4. the runners are schedules *)
   Lemma exec_b_cons b pr p items a s st :
     exec_b' b pr p items (a :: s) st =
-    exec_b' b pr p items s (sys_step_b V name fnv size b pr p items st a).
+    exec_b' b pr p items s (sys_step_b V name fnv size pol b pr p items st a).
   Proof. reflexivity. Qed.
 
   Lemma exec_b_spent b pr p items sched st :
@@ -452,7 +470,7 @@ Section Proofs.
   (** D. *)
   Lemma exec_b_is_prefix :
     forall b pr p items sched st,
-      exists n, exec_b V name fnv size b pr p items sched st = exec V name fnv size pr p items (firstn n sched) st.
+      exists n, exec_b V name fnv size pol b pr p items sched st = exec V name fnv size pol pr p items (firstn n sched) st.
   Proof.
     intros b pr p items sched. induction sched as [|a s IH]; intros st.
     - exists 0. reflexivity.
@@ -464,7 +482,7 @@ Section Proofs.
   Qed.
 
   Lemma run_seq_aux_is_schedule b pr p items : forall n i st,
-    exists sched, run_seq_aux V name fnv size b pr p items n i st = exec' pr p items sched st.
+    exists sched, run_seq_aux V name fnv size pol b pr p items n i st = exec' pr p items sched st.
   Proof.
     induction n as [|n IH]; intros i st.
     - exists []. reflexivity.
@@ -479,14 +497,14 @@ Section Proofs.
 
   Lemma run_seq_is_schedule :
     forall b pr p items f0,
-      exists sched, run_seq V name fnv size b pr p items f0 = exec V name fnv size pr p items sched (init items f0).
+      exists sched, run_seq V name fnv size pol b pr p items f0 = exec V name fnv size pol pr p items sched (init items f0).
   Proof.
     intros b pr p items f0. unfold run_seq. apply run_seq_aux_is_schedule.
   Qed.
 
   Lemma run_par_exit_is_schedule :
     forall pr p items f0 c e,
-      exists sched, run_par_exit V name fnv size pr p items f0 c e = exec V name fnv size pr p items sched (init items f0).
+      exists sched, run_par_exit V name fnv size pol pr p items f0 c e = exec V name fnv size pol pr p items sched (init items f0).
   Proof.
     intros pr p items f0 c e. unfold run_par_exit.
     destruct (exec_b_is_prefix (Some e) pr p items (block' items c) (init items f0)) as [m Hm].
@@ -509,7 +527,7 @@ Section Proofs.
     Inv p items st -> i + n = length items ->
     (forall j, i <= j -> j < length items -> nth_error (s_pcs st) j = Some PStart) ->
     exists sched,
-      run_seq_aux V name fnv size None SaveTempReplace p items n i st
+      run_seq_aux V name fnv size pol None SaveTempReplace p items n i st
       = exec' SaveTempReplace p items sched st
       /\ forall j k x, i <= j -> nth_error items j = Some (k, x) ->
                        wfuel' x <= count_occ Nat.eq_dec sched j.
@@ -550,7 +568,7 @@ Section Proofs.
     forall pr, pr = SaveTempReplace ->
     forall items f0 p,
       names_distinct name items -> Good V name fnv size items f0 ->
-      let st := run_seq V name fnv size None pr p items f0 in
+      let st := run_seq V name fnv size pol None pr p items f0 in
       all_done st = true
       /\ collect items (s_pcs st) = Some (run_uncached V fnv items)
       /\ AllCached V name fnv size items (s_fs st).
@@ -572,7 +590,7 @@ Section Proofs.
     forall pr, pr = SaveTempReplace ->
     forall items f0 p,
       names_distinct name items -> Good V name fnv size items f0 ->
-      let st := run_par V name fnv size pr p items f0 in
+      let st := run_par V name fnv size pol pr p items f0 in
       all_done st = true
       /\ collect items (s_pcs st) = Some (run_uncached V fnv items)
       /\ AllCached V name fnv size items (s_fs st).
@@ -637,7 +655,7 @@ Section Proofs.
   Lemma cached_run_no_recompute :
     forall pr items f0 p sched,
       AllCached V name fnv size items f0 ->
-      let st := exec V name fnv size pr p items sched (init items f0) in
+      let st := exec V name fnv size pol pr p items sched (init items f0) in
       s_calls st = 0%N /\ s_effs st = 0%N /\ (forall q, s_fs st q = f0 q)
       /\ (all_done st = true -> collect items (s_pcs st) = Some (run_uncached V fnv items)).
   Proof.
@@ -676,17 +694,17 @@ Section Proofs.
     - exists (PDone Raised). split; [reflexivity|]. right; right; reflexivity.
   Qed.
 
-  Lemma InvG_step p items st a i k x v j :
+  Lemma InvG_step pr p items st a i k x v j :
     names_distinct name items -> nth_error items i = Some (k, x) -> j <> size v ->
-    InvG i k v j st -> InvG i k v j (sys_step' SaveDirect p items st a).
+    InvG i k v j st -> InvG i k v j (sys_step' pr p items st a).
   Proof.
     intros Hnd Hi Hj [Hf Hpc].
-    destruct (sys_step_cases SaveDirect p items st a)
+    destruct (sys_step_cases pr p items st a)
       as [(k0 & x0 & c & f' & c' & cl & ef & Hi0 & Hc & Hs & Heq) | [Hnone Heq]]; rewrite Heq;
       [|split; assumption].
     unfold InvG; simpl. destruct (Nat.eq_dec a i) as [E|Hne].
     - subst a. rewrite Hi in Hi0. inversion Hi0; subst k0 x0.
-      destruct (step1_torn SaveDirect p k x (s_fs st) c v j Hf Hj (Hpc c Hc)) as [c1 [Hs1 Hc1]].
+      destruct (step1_torn pr p k x (s_fs st) c v j Hf Hj (Hpc c Hc)) as [c1 [Hs1 Hc1]].
       rewrite Hs1 in Hs. inversion Hs; subst f' c' cl ef.
       split; [exact Hf|]. intros c0 Hc0.
       rewrite nth_error_set_nth_eq in Hc0 by (eapply nth_error_Some_lt; exact Hc).
@@ -698,9 +716,9 @@ Section Proofs.
       + intros c0 Hc0. rewrite nth_error_set_nth_neq in Hc0 by exact Hne. apply Hpc. exact Hc0.
   Qed.
 
-  Lemma InvG_exec p items sched i k x v j :
+  Lemma InvG_exec pr p items sched i k x v j :
     names_distinct name items -> nth_error items i = Some (k, x) -> j <> size v ->
-    forall st, InvG i k v j st -> InvG i k v j (exec' SaveDirect p items sched st).
+    forall st, InvG i k v j st -> InvG i k v j (exec' pr p items sched st).
   Proof.
     intros Hnd Hi Hj. induction sched as [|a s IH]; intros st H; [exact H|].
     rewrite exec_cons. apply IH. eapply InvG_step; eassumption.
@@ -713,23 +731,23 @@ Section Proofs.
     destruct pcs as [|c cs]; [reflexivity|].
     destruct i as [|i]; simpl in Hc.
     - inversion Hc; subst c. reflexivity.
-    - simpl. destruct c as [| | |v0|v0 j0|v0|[v0|]]; try reflexivity.
+    - simpl. destruct c as [| | |v0|v0 j0 d0|v0|v0 d0|[v0|]]; try reflexivity.
       rewrite (IH cs i); [reflexivity | lia | exact Hc].
   Qed.
 
-  (** G. *)
-  Lemma direct_torn_poisons :
-    forall pr, pr = SaveDirect ->
-    forall items f0 p sched i k x v j,
+  (** G. a result file holding a strict prefix is never repaired -- whatever the save protocol and
+      the flush policy: _load_or_run takes its existence for "result available" *)
+  Lemma torn_poisons :
+    forall pr items f0 p sched i k x v j,
       names_distinct name items ->
       nth_error items i = Some (k, x) ->
       f0 (Final (name k)) = Some (v, j) -> j <> size v ->
-      let st := exec V name fnv size pr p items sched (init items f0) in
+      let st := exec V name fnv size pol pr p items sched (init items f0) in
       s_fs st (Final (name k)) = Some (v, j)
       /\ (forall r, nth_error (s_pcs st) i = Some (PDone r) -> r = Raised)
       /\ (all_done st = true -> collect items (s_pcs st) = None).
   Proof.
-    intros pr -> items f0 p sched i k x v j Hnd Hi Hf0 Hj st.
+    intros pr items f0 p sched i k x v j Hnd Hi Hf0 Hj st.
     assert (HI : InvG i k v j st).
     { eapply InvG_exec; try eassumption. split; simpl; [exact Hf0|].
       intros c Hc.
@@ -747,5 +765,17 @@ Section Proofs.
       inversion E; subst r.
       eapply collect_raised; [|exact Hc]. eapply nth_error_Some_lt. exact Hi.
   Qed.
+
+  Lemma direct_torn_poisons :
+    forall pr, pr = SaveDirect ->
+    forall items f0 p sched i k x v j,
+      names_distinct name items ->
+      nth_error items i = Some (k, x) ->
+      f0 (Final (name k)) = Some (v, j) -> j <> size v ->
+      let st := exec V name fnv size pol pr p items sched (init items f0) in
+      s_fs st (Final (name k)) = Some (v, j)
+      /\ (forall r, nth_error (s_pcs st) i = Some (PDone r) -> r = Raised)
+      /\ (all_done st = true -> collect items (s_pcs st) = None).
+  Proof. intros pr _. apply torn_poisons. Qed.
 
 End Proofs.
